@@ -66,7 +66,7 @@ def run(ctx):
         raise vlib.ToolError("calibrated fragment too thin (%d recordings reproduced): C24 would be hollow" % reproduced)
     # ---- CLI stage ----
     tp = ctx.path("trace.ndjson")
-    rc, out, wall = vlib.sh([b, "record", tp, "cli=" + cli, "seed=%d" % ctx.seed, "progs=%d" % (170 if q else 1300),
+    rc, out, wall = vlib.sh([b, "record", tp, "cli=" + cli, "seed=%d" % ctx.seed, "progs=%d" % (170 if q else 800),
                              "inputs=3", "depth=4"], timeout=2400)
     summary = J.summary_of(out)
     ops = summary.pop("ops_list")
@@ -124,4 +124,4 @@ def run(ctx):
 #        M3 caught (`add` on [] -> CLI 0), M5 caught (`.[]` on 1 -> "cannot iterate over number (1)"), M7 caught (`sort` on
 #        ["","b","A","abcdefghijklmno"]), M2 caught (`(.[] >= .)` on an object of objects).  M6, M8 not observed in the
 #        quick CLI trace (170 programs); caught by C25.  M4 MISSED at first (never generated) -> generator strengthened;
-#        M4 rerun: %(m4_c24)s
+#        M4 rerun: caught (VIOLATION: `limit(0; range(1))` on ["b","key","é"] -> CLI prints 0).
